@@ -30,10 +30,14 @@ def gen_recipe(rng, fmt, tier="quick"):
     base = fmt.split("_")[0]
     nf = rng.randint(3, 9)
     nd = rng.choice([4, 5, 6, 8, 9, 12])
-    big = tier == "thorough" and rng.random() < 0.3
+    big = rng.random() < (0.3 if tier == "thorough" else 0.08)
+    huge = big and rng.random() < 0.4        # files of 100 kB and more: beyond every buffer and block size in the stack
     if big:
         nf = rng.randint(8, 20)
         nd = rng.choice([12, 18, 24, 36])
+    if huge:
+        nf = rng.randint(20, 32)
+        nd = 36
     r = {
         "nf": nf, "nd": nd,
         "freq": {"kind": rng.choice(["log", "log", "lin"]), "f0": rng.choice([0.04, 0.05, 0.0625]), "r": rng.choice([1.1, 1.2, 1.3]), "df": rng.choice([0.02, 0.03])},
@@ -69,6 +73,8 @@ def gen_recipe(rng, fmt, tier="quick"):
         if rng.random() < 0.5:
             r["nd"] = r["nf"] if base not in ("octopus", "funwave") else r["nd"]
     nt = rng.choice([1, 1, 2, 3, 4, 5]) if not big else rng.choice([3, 6, 9])
+    if huge:
+        nt = rng.choice([8, 10, 11, 13])
     if base == "swan":
         if rng.random() < 0.45:
             nlat, nlon = rng.choice([(1, 1), (2, 3), (3, 2), (1, 3), (2, 1), (2, 2), (3, 4)])
@@ -76,7 +82,7 @@ def gen_recipe(rng, fmt, tier="quick"):
             if rng.random() < 0.3:
                 r["dims"] = [["lat", nlat], ["lon", nlon], ["time", nt]]
         else:
-            r["dims"] = [["time", nt], ["site", rng.choice([1, 2, 3, 4])]]
+            r["dims"] = [["time", nt], ["site", rng.choice([1, 2, 3, 4]) if not huge else rng.choice([4, 6])]]
             if rng.random() < 0.25:
                 r["dims"] = [["site", r["dims"][1][1]], ["time", nt]]
         if rng.random() < 0.12:
@@ -155,6 +161,8 @@ def gen_plan(rng, tier="quick"):
             nt = dict((k, n) for k, n in recipe["dims"]).get("time", 1)
             if fmt.startswith(("swan", "octopus")) and rng.random() < 0.45:
                 kw["ntime"] = rng.choice([1, 2, 3, nt, nt + 1])
+            if fmt.startswith(("swan", "octopus")) and nt >= 8 and rng.random() < 0.7:
+                kw["ntime"] = rng.choice([3, 4, 5, 6, 7])          # large output written in several loads
             st = {"op": "write", "file": name, "fmt": fmt, "recipe": recipe, "kw": kw}
             if rng.random() < 0.22:
                 st["fault"] = {"kind": rng.choice(["eio", "enospc", "torn", "close_err", "short", "short"]), "k": rng.choice([1, 1, 2, 3, 5, 8, 13, 21, 40]), "every": rng.choice([1, 2, 3])}
